@@ -79,6 +79,26 @@ CLAIMED = {
          "0 <= F <= 1, = 0 on orthogonal supports; Matsumoto <= F; exact Hilbert-Schmidt / inner product / sub-fidelity radicand evaluators bridged to Mathlib traces. Per run: rational density pairs/triples (dim 2-6, every rank, real/complex, pure/commuting/orthogonal/nearly equal) with certified intervals of width ~1e-9; "
          "every metric function within 1e-8 of its enclosure; inequalities and invariances on outputs; rejection of non-density inputs; fidelity of separability of pure product states = 1.",
          "Trusted: Lean kernel + standard axioms; Python harness (mpmath for certificate candidates, untrusted). Cited: SDP optimum = tr sqrt(sqrt rho sigma sqrt rho); Fuchs-van de Graaf; E <= F^2; Bures closed forms as monotone functions of F. Known finding: hilbert_schmidt returns the squared spectral norm."),
+ "C07": ("Lean 4 refinement theorem (mirror of classical_value = max over all pairs of answer functions), product-game / BCS tensor theorems, purity state machine + exact correspondence; NPA / non-signalling ordering on returned floats",
+         "Kernel-checked: the (repaired) enumeration of classical_value equals the maximum winning probability over all deterministic strategy pairs for all alphabet sizes and rational tensors; the pre-fix enumeration is proved incomplete exactly when the enumerated player has more answers (with the concrete counterexample); "
+         "update_odometer counts in mixed radix; the reps constructor builds the product game (predicate and distribution, exponentiation by squaring); the BCS predicate scores exactly satisfying consistent assignments; value methods leave the object unchanged, hence order independence by induction over call lists. "
+         "Tie to /repo: classical_value compared with the brute-force spec (exact for dyadic data) on games with unequal alphabets 1..4, reps 1-2; product and BCS tensors entry by entry; histories of value methods with attribute snapshots; per instance classical <= NPA(1, 1+ab, 2), see-saw <= NPA, NPA non-increasing, <= non-signalling <= 1 within solver tolerance.",
+         "Trusted: Lean kernel + standard axioms; Python harness; tau 1e-3 (SCS). NOT yet a theorem here: soundness of the NPA constraint generator and the non-signalling LP (the ordering clauses are established per instance on the returned floats only); the SDP methods are an abstract oracle in the state machine."),
+ "C08": ("Lean 4 theorems (Tsirelson weak duality for Gram matrices, vector families and genuine quantum strategies; level-1 moment program = Tsirelson program; classical value = sign maximum; conversion; non-signalling value 1; Bell bounds) + verified certificate checkers",
+         "Kernel-checked for all finite question sets: weak duality of the Tsirelson program incl. actual quantum strategies via their moment matrices; sign assignments are feasible (classical <= quantum); the converted general game has the same deterministic winning probabilities; value formula and reps power; "
+         "an XOR game's non-signalling value is exactly the total probability (PR-box-like behaviour); Bell inequality: dual bound valid for all quantum strategies with marginal terms, explicit-strategy lower bound, deterministic maximum attained, affine change of outcome labels; checker soundness. "
+         "Per run: random rectangular games incl. degenerate rows, tol given/defaulted, reps 1-3: quantum_value inside the certified interval, classical_value exactly the sign maximum, converted game equal, NPA level 1 inside the same interval, non-signalling values 1, Grothendieck bound; bell_inequality_max between verified strategy value and certified dual.",
+         "Trusted: Lean kernel + standard axioms; Python harness; tau 1e-3 (SCS). Cited: Tsirelson's realisation theorem (Gram => strategy), strong duality, Grothendieck's inequality (K < 1.7823), perfect parallel repetition. With marginal terms the certified Bell upper bound is the level-1 bound (may exceed the quantum maximum)."),
+ "C11": ("Lean 4 theorems (exclusion weak duality, bounds, invariance, antidistinguishable iff value 0) + verified certificate checkers; toqito's value must lie in the certified interval",
+         "Kernel-checked for all ensembles: weak duality of min-error exclusion; every POVM's value >= 0; a POVM with value p_j exists (so the optimum <= min prior); homogeneity in the priors; unitary invariance as a bijection of feasible sets; value 0 iff tr(rho_i M_i) = 0 for all i with p_i > 0 (antidistinguishability); "
+         "a positive accepted dual refutes antidistinguishability; weak duality of the unambiguous pair; checker soundness; exact zero witnesses for rational antidistinguishable sets and BB84 by kernel evaluation. Per run: ensembles 2..5 states, dim 2..4, real/complex, all forms, primal and dual inside certified intervals, "
+         "returned POVMs attain the value; trine / BB84 / PBR families at, above and below the threshold: value 0 (hi <= 1e-7) exactly when antidistinguishable, lo > 1e-3 otherwise; is_antidistinguishable and common_quantum_overlap agree with the interval.",
+         "Trusted: Lean kernel + standard axioms; Python harness; tau 2e-5 (CVXOPT). The unambiguous variant has only the weak-duality theorem and a numeric primal/dual agreement check, as the property asks. CVXOPT breakdowns on the unambiguous programs are counted (retried once with the tolerance the docstring recommends)."),
+ "C15": ("Lean 4 theorems (Peres: mixtures of product states have PSD partial transpose; party irrelevance; closure of the separable class under local unitaries and swap; Gurvits-Barnum ball as an exact rational inequality) + verified lambda_min certificates and exact deciders",
+         "Kernel-checked: peres for all local dimensions and either party; executable partial transpose / local conjugation / swap equal their specs; lambda_min lower and upper certificates sound, so the PPT verdict is decided exactly whenever the certified interval is clear of -tol; a certified negative Rayleigh quotient of the partial transpose excludes separability; "
+         "the separable class is closed under (U (x) V) and party exchange (so invariance of a correct verdict is meaningful); in_separable_ball's mirror equals (n-1)||M||_F^2 <= (tr M)^2. Per run: is_ppt / is_npt on states with exact structure vs certified lambda_min of the exact partial transpose; is_separable never rejects exact mixtures of rational product states, never accepts "
+         "certified NPT states, agrees with PPT for dA dB <= 6, invariant under local rational unitaries and swap, with the deciding return statement traced (sys.monitoring) for branch coverage; in_separable_ball vs the exact decision; has_symmetric_extension accepts separable constructions.",
+         "Trusted: Lean kernel + standard axioms; Python harness. Cited: soundness of toqito's sufficient separability criteria, PPT sufficiency for dA dB <= 6. Known findings: has_symmetric_extension's SDP branch is constantly False; is_separable's late stages (Breuer-Hall / final symmetric-extension stage) reject separable states or raise."),
 }
 PENDING_REASON = "check not built yet in this round (work in progress; see DESIGN.md section 7 for the plan)"
 
